@@ -42,6 +42,17 @@ def analysed_functions():
     return fs
 
 
+def dotted_name(e):
+    parts = []
+    while isinstance(e, ast.Attribute):
+        parts.append(e.attr)
+        e = e.value
+    if isinstance(e, ast.Name):
+        parts.append(e.id)
+        return '.'.join(reversed(parts))
+    return None
+
+
 def _segments(src):
     lines = src.split('\n')
     offs = [0]
@@ -58,9 +69,15 @@ def gen():
     from pjx.model import Program
     prog = Program()
     os.makedirs(OUT, exist_ok=True)
-    wanted = analysed_functions()
+    GEN2 = os.environ.get('SWEEP_GEN') == '2'
+    wanted = set() if GEN2 else analysed_functions()
+    SCOPE2 = ('pjrpc.common', 'pjrpc.server', 'pjrpc.client.client', 'pjrpc.client.retry', 'pjrpc.client.tracer', 'pjrpc.client.integrations.pytest',
+              'pjrpc.client.validators')
+    prev = {(m['file'], m['start'], m['end'], m['new']) for m in (json.load(open(os.path.join(OUT, 'mutants.json'))) if GEN2 else [])}
     muts = []
     for m in prog.modules.values():
+        if GEN2 and not m.name.startswith(SCOPE2):
+            continue
         src = m.source
         pos = _segments(src)
         funcs = [f for f in prog.funcs.values() if f.module is m and isinstance(f.node, (ast.FunctionDef, ast.AsyncFunctionDef))]
@@ -82,11 +99,13 @@ def gen():
                     return
                 muts.append({'id': None, 'op': op, 'file': m.rel, 'func': root_q, 'line': node.lineno, 'start': a, 'end': b, 'old': old, 'new': new, 'note': note})
             own = []
+            parents = {}
             stack = list(f.node.body)
             while stack:
                 n = stack.pop()
                 own.append(n)
                 for ch in ast.iter_child_nodes(n):
+                    parents[id(ch)] = n
                     if isinstance(ch, (ast.FunctionDef, ast.AsyncFunctionDef, ast.ClassDef)):
                         continue
                     stack.append(ch)
@@ -143,6 +162,37 @@ def gen():
                             sa, sb = seg(k2.value)
                             parts.append((f'{k2.arg}=' if k2.arg else '**') + src[sa:sb])
                         add('ARG', n, f'{src[fa:fb]}({", ".join(parts)})', note=f'drop {kw.arg}=')
+                if GEN2 and isinstance(n, ast.Call) and isinstance(n.func, ast.Name) and n.func.id in ('list', 'tuple', 'set', 'str', 'sorted', 'reversed', 'dict', 'frozenset', 'bool') \
+                        and len(n.args) == 1 and not n.keywords and not isinstance(n.args[0], (ast.GeneratorExp, ast.Starred)):
+                    a1, b1 = seg(n.args[0])
+                    add('UNWRAP', n, src[a1:b1], note=f'{n.func.id}(x) -> x')
+                if GEN2 and isinstance(n, ast.Call) and dotted_name(n.func) in ('copy.deepcopy', 'copy.copy') and len(n.args) == 1:
+                    a1, b1 = seg(n.args[0])
+                    add('UNWRAP', n, src[a1:b1], note='copy removed')
+                if GEN2 and isinstance(n, ast.Call) and len(n.args) >= 2 and not any(isinstance(a_, ast.Starred) for a_ in n.args[:2]):
+                    a1, b1 = seg(n.args[0])
+                    a2, b2 = seg(n.args[1])
+                    if src[a1:b1] != src[a2:b2]:
+                        fa, fb = seg(n.func)
+                        rest = []
+                        for a_ in n.args[2:]:
+                            sa, sb = seg(a_)
+                            rest.append(src[sa:sb])
+                        for k2 in n.keywords:
+                            sa, sb = seg(k2.value)
+                            rest.append((f'{k2.arg}=' if k2.arg else '**') + src[sa:sb])
+                        add('SWAP', n, f'{src[fa:fb]}({", ".join([src[a2:b2], src[a1:b1]] + rest)})', note='first two arguments swapped')
+                if GEN2 and isinstance(n, ast.Constant) and isinstance(n.value, str) and n.value and len(n.value) < 40:
+                    par = parents.get(id(n))
+                    gpar = parents.get(id(par)) if par is not None else None
+                    in_msg = isinstance(par, ast.JoinedStr) or isinstance(par, ast.Call) and (
+                        'logger' in (dotted_name(par.func) or '') or 'Error' in (dotted_name(par.func) or '') or 'Exception' in (dotted_name(par.func) or '')
+                        or (dotted_name(par.func) or '').endswith(('warn', 'warning', 'debug', 'info', 'error', 'exception')))
+                    is_doc = isinstance(par, ast.Expr)
+                    if not in_msg and not is_doc and not isinstance(par, (ast.Assert, ast.Raise)):
+                        add('STR', n, repr(n.value + '_'), note='string constant changed')
+                if GEN2 and isinstance(n, ast.Constant) and isinstance(n.value, int) and not isinstance(n.value, bool) and n.value not in (0, 1):
+                    add('CONST', n, repr(n.value + 1))
                 if isinstance(n, ast.ExceptHandler) and n.type is not None:
                     if isinstance(n.type, ast.Tuple) and len(n.type.elts) >= 2:
                         a0, b0 = seg(n.type.elts[0])
@@ -150,14 +200,15 @@ def gen():
                     elif not (isinstance(n.type, ast.Name) and n.type.id in ('Exception', 'BaseException')):
                         add('EXC', n.type, 'Exception', note='widened')
     # de-duplicate, number
-    seen = set()
+    seen = set(prev)
     out = []
+    base_n = 2000 if GEN2 else 0
     for mu in muts:
         key = (mu['file'], mu['start'], mu['end'], mu['new'])
         if key in seen:
             continue
         seen.add(key)
-        mu['id'] = f'M{len(out):04d}'
+        mu['id'] = f'M{base_n + len(out):04d}'
         out.append(mu)
     # only mutants that still parse
     ok = []
@@ -169,7 +220,12 @@ def gen():
         except SyntaxError:
             continue
         ok.append(mu)
-    json.dump(ok, open(os.path.join(OUT, 'mutants.json'), 'w'), indent=0)
+    if GEN2:
+        old = json.load(open(os.path.join(OUT, 'mutants.json')))
+        old = [m_ for m_ in old if not m_['id'] >= 'M2000']
+        json.dump(old + ok, open(os.path.join(OUT, 'mutants.json'), 'w'), indent=0)
+    else:
+        json.dump(ok, open(os.path.join(OUT, 'mutants.json'), 'w'), indent=0)
     by = {}
     for mu in ok:
         by[mu['op']] = by.get(mu['op'], 0) + 1
